@@ -231,13 +231,8 @@ def run(rep):
     canary(rep, pv, 'C05/canary/gt-clauses-are-lt', [], z3.And(z3.Or(p, z3.Not(r)), z3.Or(z3.Not(q), z3.Not(r)), z3.Or(z3.Not(p), q, r)) == (r == theory.OPz('LT', [p, q])))
     refuted = pv.discharge(env.NPROC)
     finish_refuted(rep, pv, refuted)
-    try:
-        from ..bounded import C05 as B
-    except ImportError:
-        B = None
-        rep.assume('bounded driver for C05 not present in this build')
-    if B is not None:
-        B.run_bounded(rep, quick)
+    from .common import run_bounded
+    run_bounded(rep, 'C05', quick)
     rep.extra['explanation'] = ('Template equivalences are proved from the real source for all literals (and all arities for and/nand/or/nor); the '
                                 'whole-circuit theorem additionally needs the process_gate recursion, which is exercised by the bounded layer '
                                 '(brute force over all valuations of the generated CNF on enumerated circuits).')
